@@ -92,6 +92,9 @@ func (fv *FuncVC) script(o *Obl, eng *Engine, withModel bool) string {
 		if len(terms) > 0 {
 			fmt.Fprintf(&b, "(get-value (%s))\n", strings.Join(terms, " "))
 		}
+		for _, ets := range fv.ElemTerms {
+			fmt.Fprintf(&b, "(get-value (%s))\n", strings.Join(ets, " "))
+		}
 		for _, r := range fv.Results {
 			// results may be defined after the obligation's prelude window
 			if definedWithin(c.pre[:n], r[1]) || !strings.Contains(r[1], "!") {
@@ -297,6 +300,7 @@ func parseModel(out string) map[string]string {
 				parts := topSexps(pair[1 : len(pair)-1])
 				if len(parts) == 2 {
 					m[parts[0]] = parts[1]
+					m[strings.Join(strings.Fields(parts[0]), " ")] = parts[1]
 				}
 			}
 			j = end - 1
